@@ -795,6 +795,12 @@ def partial_ops(ctx, reach, tr=None):
                     const(node.slice) == -1 and \
                     isinstance(node.ctx, ast.Load):
                 kind = ('last-element', {'IndexError'})
+            elif isinstance(node, ast.Call) and \
+                    isinstance(node.func, ast.Attribute) and \
+                    node.func.attr == 'index' and len(node.args) == 1 and \
+                    isinstance(const(node.args[0]), str):
+                # s.index('x') on text derived from a run-time value
+                kind = ('str-index', {'ValueError'})
             if kind is None:
                 continue
             n += 1
@@ -809,6 +815,24 @@ def partial_ops(ctx, reach, tr=None):
             left = _unmapped(kind[1], boundary |
                              enclosing_catches(node, fn))
             guarded = not left
+            if not guarded and kind[0] == 'str-index' and outer is None:
+                if cfg is None:
+                    cfg = build_cfg(fn, repo_noreturn)
+                st = node
+                while not isinstance(st, ast.stmt):
+                    st = st._parent
+                needle = repr(const(node.args[0]))
+                hay = unparse(node.func.value)
+                for x in (y for y in cfg.nodes if y.ast is st):
+                    for tnode, lab in cfg.conditions(x):
+                        for c_ in ast.walk(tnode.ast.test):
+                            if isinstance(c_, ast.Compare) and \
+                                    len(c_.ops) == 1 and \
+                                    isinstance(c_.ops[0], ast.In) and \
+                                    repr(const(c_.left)) == needle and \
+                                    unparse(c_.comparators[0]) == hay and \
+                                    lab == 'true':
+                                guarded = True
             if not guarded and kind[0] in ('bytes', 'last-element') \
                     and outer is None:
                 # range / emptiness guard dominating the use
